@@ -152,7 +152,12 @@ def _copy_content(content_object):
     def content_callback():
         return content_bytes
 
-    return content.Content(content_object.content_type, content_callback)
+    # The content type is part of the snapshot too: a ContentType is a plain
+    # mutable object, and a later change of the source's type (or of its
+    # parameters dict) must not show in the copy.
+    content_type = copy.copy(content_object.content_type)
+    content_type.parameters = dict(content_type.parameters)
+    return content.Content(content_type, content_callback)
 
 
 def gather_details(source_dict, target_dict):
